@@ -638,12 +638,6 @@ func registerMisc() {
 	intrinsics["github.com/arana-db/parser/charset.HackString"] = func(i *Interp, fr *frame, fn *ssa.Function, args []value) value {
 		return i.conv(types.Typ[types.String], i.byteSliceType(), args[0])
 	}
-	// JSON (only ever used for log messages on the paths explored so far): the
-	// produced bytes are unsupported values, any use of them ends the path
-	intrinsics["github.com/goccy/go-json.Marshal"] = func(i *Interp, fr *frame, fn *ssa.Function, args []value) value {
-		return tuple{poison{"JSON encoding is not modelled"}, iface{}}
-	}
-	intrinsics["encoding/json.Marshal"] = intrinsics["github.com/goccy/go-json.Marshal"]
 	intrinsics["sort.Slice"] = func(i *Interp, fr *frame, fn *ssa.Function, args []value) value {
 		i.sortSlice(fr, args[0].(iface), args[1])
 		return nil
